@@ -172,6 +172,53 @@ def g_compare(repo):
     return g
 
 
+def g_memo(repo, block=False):
+    """C04 history dimension: the memo tables of the scopes (RootScope::resolve_variable, RootScope::rule_status;
+    block=True: BlockScope::resolve_variable). HashMap<&str, V> is the assumed StrMap model; callees receiving `self` are
+    hand-declared stubs (R5n)."""
+    g = GroupBuild('memo_block' if block else 'memo', repo)
+    g.raw('prelude_common.rs')
+    import os
+    from vrun import VERUS_DIR
+    pe = open(os.path.join(VERUS_DIR, 'prelude_eval.rs')).read()
+    a = pe.index('impl Clone for QueryResult {')
+    b = pe.index('}\n}\n', a) + 4
+    g.text(pe[:a] + pe[b:], 'prelude_eval.rs (without the contract-free Clone of QueryResult; prelude_memo.rs gives the structural one)')
+    eval_types(g)
+    EC = RULES + 'eval_context.rs'
+    g.type(EC, 'EventRecord', derive=None)
+    g.type(EC, 'RecordTracker', derive=None)
+    g.raw('prelude_memo.rs')
+    HM = [("HashMap<&'value str, ", "StrMap<'value, ")]
+    # R8f: private fields -> pub (Verus treats a struct with private fields as opaque in the contracts of pub functions)
+    def pubf(*names):
+        return [('    %s: ' % n, '    pub %s: ' % n) for n in names]
+    g.type(EC, 'Scope', derive=None, extra_subst=HM + pubf('root', 'resolved_variables', 'literals', 'variable_queries', 'function_expressions'))
+    if block:
+        g.raw('prelude_memo_parent.rs')
+        g.type(EC, 'BlockScope', derive=None, extra_subst=pubf('scope', 'parent') + [("&'eval mut dyn EvalContext<'value, 'loc>", "ParentCtx<'value, 'loc, 'eval>")])
+        g.raw('prelude_memo_block.rs')
+        IMPL = r"EvalContext<'value, 'loc> for BlockScope<'value, 'loc, 'eval>"
+        W = "impl<'value, 'loc: 'value, 'eval> BlockScope<'value, 'loc, 'eval>"
+        g.fn(None, EC, 'root', impl=IMPL, stub=True, wrap_impl=W)
+        g.fn('U-memo-var-b', EC, 'resolve_variable', impl=IMPL, spec='block_resolve_variable.spec', wrap_impl=W, props=['C01', 'C04'])
+        return g
+    g.type(EC, 'RootScope', derive=None, extra_subst=HM + pubf('scope', 'rules', 'rules_status', 'parameterized_rules', 'recorder'))
+    g.raw('prelude_memo_root.rs')
+    IMPL = r"EvalContext<'value, 'loc> for RootScope<'value, 'loc>"
+    W = "impl<'value, 'loc: 'value> RootScope<'value, 'loc>"
+    g.fn(None, EC, 'root', impl=IMPL, stub=True, wrap_impl=W)
+    g.fn('U-memo-var', EC, 'resolve_variable', impl=IMPL, spec='root_resolve_variable.spec', wrap_impl=W, props=['C01', 'C04'])
+    g.fn('U-memo-rule', EC, 'rule_status', impl=IMPL, spec='root_rule_status.spec', wrap_impl=W, props=['C01', 'C04'])
+    g.unit_meta['L-memo'] = dict(function='lemma_fns_prefix, lemma_fns_at', file='/verif/verus/prelude_memo.rs',
+                                 clauses=dict(requires=2, ensures=4, invariant=0, decreases=1), props=['C01', 'C04'], spec=None, lemma=True)
+    return g
+
+
+def g_memo_block(repo):
+    return g_memo(repo, block=True)
+
+
 def g_report(repo):
     g = GroupBuild('report', repo)
     g.raw('prelude_common.rs')
@@ -299,4 +346,4 @@ def g_tables(repo):
     return g
 
 
-GROUPS = {'compare': g_compare, 'tables': g_tables, 'index2': g_index2, 'index': g_index, 'tracker': g_tracker, 'validate': g_validate, 'eval_blocks': g_eval_blocks, 'report': g_report, 'merge': g_merge, 'status': g_status, 'exit': g_exit, 'eval': g_eval, 'eval_disp': g_eval_disp}
+GROUPS = {'memo': g_memo, 'memo_block': g_memo_block, 'compare': g_compare, 'tables': g_tables, 'index2': g_index2, 'index': g_index, 'tracker': g_tracker, 'validate': g_validate, 'eval_blocks': g_eval_blocks, 'report': g_report, 'merge': g_merge, 'status': g_status, 'exit': g_exit, 'eval': g_eval, 'eval_disp': g_eval_disp}
